@@ -37,6 +37,7 @@ func checkC01(ctx *Ctx, r *Report) {
 	c01MapOnlyWithoutProperties(ctx, r)
 	c01GoFieldTypeOverride(ctx, r)
 	c01StrictEmptyList(ctx, r)
+	c01StrictDecoderNulls(ctx, r)
 	c01CueDefaultBranch(ctx, r)
 	c01OpenAPIWidestDefault(ctx, r)
 	c01GoByteSliceTrap(ctx, r)
@@ -2155,3 +2156,134 @@ func c01OmitEmptyOnCollections(ctx *Ctx, r *Report) {
 	r.Check(distinguishes, "skeleton/omitempty-not-on-collections", "golang.typeFormatter.formatField omitempty", fd.Pos(), "optional lists and maps are not given a bare `omitempty`",
 		"formatField adds `,omitempty` to every optional field: for a list or a map it omits the *empty* value, not the absent one — {\"tags\": []} is re-encoded without `tags` by both decoders")
 }
+
+// c01StrictDecoderNulls: clauses of the strict decoder about `null` (second hunting round).
+//
+//	skeleton/strict-null-on-any        the branch that reports "required field is null" is not taken for a field of
+//	                                   kind any: null is one of the values an empty schema / CUE `_` accepts.
+//	skeleton/strict-null-elements      in the branch that decodes an element through UnmarshalJSONStrict on a freshly
+//	                                   allocated struct (lists and maps of references), a nullable element is tested for
+//	                                   `null` first: `[{…}, null]` is a valid list of `#Slot | null`.
+//	skeleton/strict-append-on-nil-ptr  the append branch for a nullable reference to a list dereferences the target
+//	                                   (`append(*x, …)`) only after it was given a value: an optional reference to a named
+//	                                   list of objects starts nil.
+func c01StrictDecoderNulls(ctx *Ctx, r *Report) {
+	ts, err := loadTemplates(ctx, "golang")
+	if err != nil {
+		r.Undecided("cannot parse golang templates: %v", err)
+		return
+	}
+	file := "types/struct.strict.json_unmarshal.tmpl"
+	root := ts.trees[file]
+	rec := ts.trees[recStrict.define]
+	if root == nil || rec == nil {
+		r.Undecided("anchor lost: %s / %s", file, recStrict.define)
+		return
+	}
+	// (1) the "required field is null" branch
+	found := false
+	walkTmpl(root.Root, func(n parse.Node) bool {
+		in, ok := n.(*parse.IfNode)
+		if !ok {
+			return true
+		}
+		if !strings.Contains(tmplText(in.List), "required field is null") {
+			return true
+		}
+		// innermost such if
+		inner := false
+		walkTmpl(in.List, func(m parse.Node) bool {
+			if i2, ok := m.(*parse.IfNode); ok && strings.Contains(tmplText(i2.List), "required field is null") {
+				inner = true
+			}
+			return true
+		})
+		if inner {
+			return true
+		}
+		found = true
+		cond := in.Pipe.String()
+		r.Check(strings.Contains(cond, "IsAny"), "skeleton/strict-null-on-any", "strict decoder: required field is null", token.NoPos, ts.posOf(ctx, file, in)+": the branch excludes fields of kind any",
+			ts.posOf(ctx, file, in)+": the strict decoder reports `required field is null` under `"+cond+"`, which holds for a required field of kind any: {\"payload\": null} is accepted by the schema (an empty schema, CUE `_`) and by json.Unmarshal, and rejected by UnmarshalJSONStrict")
+		return true
+	})
+	if !found {
+		r.Undecided("anchor lost: the branch emitting `required field is null`")
+	}
+	// (2) elements decoded through UnmarshalJSONStrict
+	n := 0
+	walkTmpl(rec.Root, func(m parse.Node) bool {
+		in, ok := m.(*parse.IfNode)
+		if !ok {
+			return true
+		}
+		for _, br := range ifChain(in) {
+			if br.body == nil {
+				continue
+			}
+			txt := tmplText(br.body)
+			if !strings.Contains(txt, ".UnmarshalJSONStrict(") {
+				continue
+			}
+			// only the leaf branch (no nested chain holding the call)
+			nested := false
+			walkTmpl(br.body, func(q parse.Node) bool {
+				if i2, ok := q.(*parse.IfNode); ok && i2 != in && strings.Contains(tmplText(i2.List), ".UnmarshalJSONStrict(") {
+					nested = true
+				}
+				return true
+			})
+			if nested {
+				continue
+			}
+			n++
+			tests := strings.Contains(txt, `"null"`)
+			r.Check(tests, "skeleton/strict-null-elements", fmt.Sprintf("strict decoder: struct elements branch #%d", n), token.NoPos, ts.posOf(ctx, recStrict.define, br.body)+": the raw value is compared with null before a struct is allocated for it",
+				ts.posOf(ctx, recStrict.define, br.body)+": the branch allocates a struct and calls UnmarshalJSONStrict on the raw element whatever it is: for a list or map of nullable references (`[...(#Slot | null)]`) the valid element null is decoded as an object and reported as `required field is missing`")
+		}
+		return false
+	})
+	r.Count("strict decoder branches decoding an element through UnmarshalJSONStrict", n)
+	r.Floor("strict decoder branches decoding an element through UnmarshalJSONStrict", 1)
+	// (3) append through a pointer that can be nil: a `*` emitted under a nullable-reference condition right after
+	// the text `append(` dereferences the target; an initialisation of the target under the same condition must come first
+	derefs, initialised := 0, 0
+	var scan func(list *parse.ListNode, initSeen bool)
+	scan = func(list *parse.ListNode, initSeen bool) {
+		if list == nil {
+			return
+		}
+		for idx, node := range list.Nodes {
+			switch x := node.(type) {
+			case *parse.IfNode:
+				cond := x.Pipe.String()
+				body := tmplText(x.List)
+				if strings.Contains(cond, "Nullable") && strings.Contains(cond, "IsRef") {
+					if strings.Contains(body, "cog.ToPtr(") && strings.Contains(body, "{}") && strings.Contains(body, " = ") {
+						initSeen = true
+					}
+					if strings.TrimSpace(body) == "*" && idx > 0 {
+						if t, ok := list.Nodes[idx-1].(*parse.TextNode); ok && strings.HasSuffix(strings.TrimRight(string(t.Text), " \t"), "append(") {
+							derefs++
+							if initSeen {
+								initialised++
+							}
+						}
+					}
+				}
+				scan(x.List, initSeen)
+				scan(x.ElseList, initSeen)
+			case *parse.RangeNode:
+				scan(x.List, initSeen)
+			case *parse.WithNode:
+				scan(x.List, initSeen)
+			}
+		}
+	}
+	scan(rec.Root, false)
+	r.Count("strict decoder appends through a dereferenced target", derefs)
+	r.Floor("strict decoder appends through a dereferenced target", 1)
+	r.Check(derefs == initialised, "skeleton/strict-append-on-nil-ptr", "strict decoder: append through an optional list reference", token.NoPos, "the target is given a value, under the same condition, before it is dereferenced",
+		"the array branch emits `x = cog.ToPtr(append(*x, item))` for a nullable reference to a list and never initialises x: `items?: #Items` with `#Items: [...#Item]` starts as a nil pointer — UnmarshalJSONStrict panics on the valid document {\"items\":[{…}]}")
+}
+
